@@ -557,6 +557,28 @@ def check_value(ctx, tname, v, reg=None, choice=None, variant="list", observe=No
             if held2 != data or tail != 5 or left:
                 raise Fail("any-on-the-wire", "decoded-differs", "context %d: Any holds %s, expected %s; tail %r; %d tags left"
                            % (number, held2.hex(), data.hex(), tail, left))
+    # -- a Choice object that is decoded into again (a receiver with a scratch object): the object left by the previous
+    #    case of this type (usually another alternative) takes this case's octets; it must then hold this value only
+    if ti.kind == "choice" and not service:
+        prev = getattr(ctx, "_scratch_choice", {}).get(tname)
+        if prev is not None:
+            try:
+                tl = PD.TagList()
+                tl.decode(PDUData(data))
+                prev.decode(tl)
+                again2 = _encode_plain(prev)
+            except Exception as err:
+                raise Fail("reused-choice", _exc_kind("raises", err), _msg(err))
+            out2 = []
+            cmp_.compare(v, prev, "", out2)
+            if out2:
+                raise Fail("reused-choice", "object-decoded-into-again-keeps-the-alternative-of-the-value-before",
+                           "%s: %s" % (out2[0][0] or ".", out2[0][1]))
+            if again2 != data:
+                raise Fail("reused-choice", "re-encoding-after-second-decode-differs", "second %s / expected %s" % (again2.hex(), data.hex()))
+        if not hasattr(ctx, "_scratch_choice"):
+            ctx._scratch_choice = {}
+        ctx._scratch_choice[tname] = got
     # -- ArrayOf item access
     if ti.kind == "arrayof":
         check_array_items(ctx, ti, v, obj, cmp_)
